@@ -829,6 +829,85 @@ def r11_argument_position_resolves_like_any_value(ctx, rule="C13.R11"):
     ctx.require(rule, 2)
 
 
+def _module_level_shared_lookups(prog):
+    """Functions of the scoped name table that collect the entries of a name in the current scope AND the
+    SHARED ones of the module level, whatever their style: one collector called on the table of the current
+    scope and on the module-level table (found by what they do)."""
+    out = []
+    for f in prog.fns.values():
+        if f.crate != "rusty_linter" or f.body is None or "::names::" not in f.id or f.kind == "closure":
+            continue
+        pv = mir.Prov(f.body)
+        by_callee = {}
+        for b, t in f.body.calls():
+            if not t["args"]:
+                continue
+            recv = mir.strip_all(pv.of_operand(t["args"][0]))
+            src = None
+            if mir.origin_mentions(recv, lambda x: x[0] == "call" and x[1].split("::")[-1] == "global_names"):
+                src = "global"
+            elif mir.origin_mentions(recv, lambda x: x[0] == "call" and x[1].split("::")[-1] == "names"):
+                src = "local"
+            if src:
+                by_callee.setdefault(mir.callee_of(t), set()).add(src)
+        if any(v == {"global", "local"} for v in by_callee.values()):
+            out.append(f)
+    return out
+
+
+def r12_every_definition_looks_at_the_shared_names(ctx, rule="C13.R12"):
+    """`Inside a SUB or FUNCTION a name refers to a local unless it ... was declared DIM SHARED` and `after
+    DIM A AS type ... any other suffix on A is rejected`: a declaration may not create a variable that takes a
+    name away from a SHARED variable of the module level.  Every place of the declaration rules that makes the
+    type of a new variable (VarType::new_* / a fixed-length string type) is dominated by a call that reaches
+    the lookup which collects the entries of the name in the current scope and the SHARED ones of the module
+    level in every style.  A gate that only looks for extended entries up there lets `DIM Count AS INTEGER`
+    in a SUB shadow `DIM SHARED Count%`."""
+    prog = ctx.prog
+    lookups = _module_level_shared_lookups(prog)
+    if not lookups:
+        raise CheckError("%s: no function of the name table collects local and module-level SHARED entries with one collector" % rule)
+    lids = {f.id for f in lookups}
+    memo = {}
+
+    def reaches(fid, depth=3):
+        if fid in lids:
+            return True
+        if depth == 0:
+            return False
+        k = (fid, depth)
+        if k not in memo:
+            memo[k] = False
+            g = prog.fns.get(fid)
+            if g is not None and g.body is not None and g.crate == "rusty_linter":
+                memo[k] = any(reaches(c, depth - 1) for c in prog.call_edges(g))
+        return memo[k]
+
+    n = 0
+    for f in sorted(prog.fns.values(), key=lambda f: f.id):
+        if f.crate != "rusty_linter" or f.body is None or "dim_rules" not in f.id:
+            continue
+        body = f.body
+        for b, t in body.calls():
+            cp = mir.callee_path(t)
+            last = cp.split("::")[-1]
+            makes = ("VarType" in cp and last.startswith("new_")) or (last == "fixed_length_string" and "DimType" in cp)
+            if not makes:
+                continue
+            n += 1
+            doms = [mir.callee_path(t2).split("::")[-1] for b2, t2 in body.calls()
+                    if b2 != b and body.dominates(b2, b) and reaches(t2.get("res") or mir.callee_of(t2))]
+            name = f.path.split("::", 1)[1]
+            ctx.decide(bool(doms), rule, "%s:%s:%s" % (rule, name, last), "%s:%s" % (f.file, t.get("ln")),
+                       "dominated by %s, which reaches %s" % (doms[:2], [x.name for x in lookups][:2]),
+                       "%s makes the type of a new variable (%s) without first looking at the entries of the name in the current "
+                       "scope and the SHARED entries of the module level in every style (no dominating call reaches %s): a "
+                       "declaration in a SUB can take the name of a SHARED variable, which the SUB then no longer sees"
+                       % (name, last, [x.name for x in lookups]))
+    ctx.analysed_units(rule, lookups=[x.name for x in lookups], definition_sites=n)
+    ctx.require(rule, 4)
+
+
 def run(ctx):
     common.install(ctx)
     from . import c09
@@ -844,3 +923,4 @@ def run(ctx):
     r9_bare_name_selects_compact_entry_by_default_type(ctx)
     r10_written_suffix_is_looked_at(ctx)
     r11_argument_position_resolves_like_any_value(ctx)
+    r12_every_definition_looks_at_the_shared_names(ctx)
